@@ -9,7 +9,7 @@ def inst(it: Item, name=None) -> str:
 
 
 def turbofish(it: Item, name=None) -> str:
-    args = ["'static"] * it.lifetimes + ["u8"] * it.tparams + ["3"] * it.cparams
+    args = ["u8"] * it.tparams + ["3"] * it.cparams     # lifetime arguments are inferred
     return (name or it.ident) + ("::<%s>" % ", ".join(args) if args else "")
 
 
